@@ -4,7 +4,7 @@
 #   tools/alt_env.sh setup            create / refresh /tmp/alt/{repo,verif}
 #   tools/alt_env.sh try <patch> <P>  apply <patch> to /tmp/alt/repo, run check <P> there, undo
 set -e
-A=/tmp/alt
+A=${ALT_DIR:-/tmp/alt}
 case "$1" in
 setup)
   mkdir -p $A
